@@ -7,6 +7,26 @@ PAIR_TECH = ("TLA+ closed model (Cfdp.tla = SrcCore + DstCore transducers + faul
              "TLC-generated schedules replayed into the real handlers; recorded executions validated against the transducers and "
              "judged by TLA+ monitors (CfdpProps.tla) evaluated by TLC")
 CLAIMED = {
+    "C01": dict(
+        text="TLC checks on the closed TLA+ model, in every reachable state of every schedule with up to K faults (drop, duplicate, "
+             "reorder, delay, payload bit flip, rejected write; all modes, closure, NAK modes; CRC-32/CRC-32C computed bit-serially "
+             "in TLA+, NULL/modular with link faults only), that a Finished indication or Finished PDU reporting success implies "
+             "an identical destination file or a genuine checksum collision. All K<=1 (quick) / K<=2 (thorough) schedules and "
+             "simulated free-pacing schedules are executed on the real handlers; each execution is validated against the "
+             "transducers and the C01 monitor is evaluated by TLC on the observed indications, PDUs and sandbox snapshots.",
+        ref="DESIGN.md section 6 C01", tech=PAIR_TECH,
+        note="Trusted: TLC; the harness projection; corruption is injected past the PDU CRC-16 (worst case). Bounds: 1-byte "
+             "segments, 0..3 segments, K <= 3."),
+    "C02": dict(
+        text="TLC checks the closed model with K = 0 for each configuration of a product (mode, closure, checksum type, PDU CRC, id / "
+             "sequence widths, NAK mode, segment length, maximum packet length at the break points, file size relative to the "
+             "segment length, destination file / existing file / directory, metadata-only): no exception, no fault callback, one "
+             "successful Finished indication per side, identical file, and termination (liveness). The canonical run and simulated "
+             "pacings of every configuration are executed on the real handlers, validated against the transducers (every PDU "
+             "field and encoded length, indication, counter, file byte) and judged by the C02 monitor.",
+        ref="DESIGN.md section 6 C02", tech=PAIR_TECH,
+        note="Trusted: TLC; the harness projection. The configuration product (147456 points x size classes) is sampled by seed: "
+             "240 points quick, 6000 thorough."),
     "C03": dict(
         text="TLC checks on the closed TLA+ model that every schedule with at most K drop/duplicate/reorder/delay faults (K < every "
              "limit; files of 0..4 one-byte segments; both NAK modes, closure on/off; canonical and free pacing) ends with both "
